@@ -76,6 +76,7 @@ PROPS["C02"] = {
             spec("C02/gate/bytes<=2", "VerifC02Gate", {"ascii": "0", "maxlen": "xx"}, tier="thorough"),
             spec("C02/gate/ascii<=6", "VerifC02Gate", {"ascii": "1", "maxlen": "xxxxxx"}, tier="thorough"),
             spec("C02/levels", "VerifC02Levels")]},
+        {"pkg": "badmetrics", "hdir": "badmetrics", "specs": [spec("C02/bad-report/queue-full", "VerifC02BadQueueFull")]},
     ],
 }
 
